@@ -27,7 +27,7 @@ use pollster::FutureExt as _;
 use std::collections::HashMap;
 use testutils::{TestRepo, TestRepoBackend, create_random_tree, repo_path};
 
-const SUBSECOND_AUTHOR_DEFAULT: bool = false; // TODO(integrator): true once F1 is fixed in /repo
+const SUBSECOND_AUTHOR_DEFAULT: bool = true; // F1 fixed in /repo (commit 42ee25d)
 
 fn fail(out: &mut Out, sig: &str, detail: String) { out.tally("oracle.fail", sig); if std::env::var("JJ_VERIF_DEBUG").is_ok_and(|f| sig.contains(&f)) { eprintln!("{sig}\n{detail}"); } out.oracle_fail(sig, detail); }
 fn hs(s: &str) -> String { hex(s.as_bytes()) }
